@@ -58,4 +58,6 @@ ConfState(inst, s, st) == st.cur = s.cur /\ st.used = s.used /\ ToSetU(st.visite
 
 \* action used to pad a finished row / to close a solution that does not end at the depot
 PadAction(inst) == 0
+\* forced first move of multi-start rollout j = 0, 1, ... (select_start_nodes: customer (j mod N) + 1, never the depot)
+StartNode(inst, j) == (j % inst.N) + 1
 =============================================================================
